@@ -142,6 +142,33 @@ func (x *execCtx) newColumn(t *table, cd *colDef) (*column, error) {
 // addConstraint validates a constraint against the rows visible to the
 // transaction and attaches it to t.
 func (x *execCtx) addConstraint(t *table, tc *tableCons) error {
+	if err := x.addConstraint1(t, tc); err != nil {
+		return err
+	}
+	// PostgreSQL truncates generated names to 63 bytes in its own way; refuse instead of guessing
+	for _, n := range t.lastConstraintNames() {
+		if len(n) > 63 {
+			return unsupported("constraint name %q longer than 63 bytes", n)
+		}
+	}
+	return nil
+}
+
+func (t *table) lastConstraintNames() []string {
+	var out []string
+	if n := len(t.uniques); n > 0 {
+		out = append(out, t.uniques[0].name, t.uniques[n-1].name)
+	}
+	if n := len(t.checks); n > 0 {
+		out = append(out, t.checks[n-1].name)
+	}
+	if n := len(t.fks); n > 0 {
+		out = append(out, t.fks[n-1].name)
+	}
+	return out
+}
+
+func (x *execCtx) addConstraint1(t *table, tc *tableCons) error {
 	cat := x.srv.cat
 	colIdx := func(names []string) ([]int, error) {
 		var out []int
